@@ -12,7 +12,7 @@ RESERVED = {
 }
 NUMS = [('1', 1.0), ('+1', 1.0), ('-0.25', -0.25), ('1e-1', 0.1), ('0', 0.0), ('2.5', 2.5), ('-1', -1.0),
         ('0.5', 0.5), ('.5', 0.5), ('3', 3.0), ('0.75', 0.75), ('-2e0', -2.0), ('12', 12.0), ('0.2', 0.2)]
-FREE_KEYS = ['mass', 'm', 'k', 'lab', 'z9', 'Tg', 'note', 'b']
+FREE_KEYS = ['mass', 'm', 'k', 'lab', 'z9', 'Tg', 'note', 'b', '_type', '_q']
 FREE_VALS = ['abc', '72', '1.5', 'a_b', 'X', '0', 'R2', 'tail', '+1', 'e-3']
 DEFAULT_SPELL = {0.0: ['0', '0.0', '+0'], 1.0: ['1', '1.0', '+1']}
 
@@ -24,7 +24,8 @@ def random_assignment(rng, level, p_reserved=0.6, max_free=2):
         if rng.random() < p_reserved:
             res[short] = rng.choice(NUMS) if kind == 'num' else rng.choice([('R', 'R'), ('S', 'S')])
     free = {}
-    for key in rng.sample(FREE_KEYS, rng.randint(0, max_free)):
+    # a symbol that is reserved at the OTHER level is an ordinary free key here (x on base-graph nodes, q on fragment atoms)
+    for key in rng.sample(FREE_KEYS + (['x', 'x'] if level == 'base' else ['q', 'q']), rng.randint(0, max_free)):
         free[key] = rng.choice(FREE_VALS)
     return res, free
 
